@@ -140,7 +140,7 @@ extern void ILL_report (
 #define ILL_FAILfalse_no_rval(expr, msg)  ILL_FAILtrue_no_rval(!(expr), msg)
 
 #define ILL_ERROR(rval, msg)      {									\
-									fprintf(stderr, "%s\n", msg);	\
+									QSlog("%s", msg);	\
 									rval = 1; goto CLEANUP;			\
 								  }
 #define ILL_CLEANUP_IF(rval)      { if ((rval) != 0) { goto CLEANUP; } }
